@@ -93,6 +93,25 @@ def edits_for(text, rng, tier):
     return out
 
 
+def same_output(kind, at, want, got):
+    if want == got:
+        return True
+    if kind != "widen-string" or len(want) != len(got):
+        return False
+    # rows equal to the literal's own row (at - 1) may have moved to the next line
+    rest = list(got)
+    for w in want:
+        if w in rest:
+            rest.remove(w)
+            continue
+        alt = (w[0], w[1], at, w[3])
+        if w[2] == at - 1 and alt in rest:
+            rest.remove(alt)
+            continue
+        return False
+    return not rest
+
+
 def context_key(text, kind, row):
     lines = text.split("\n")
 
@@ -140,7 +159,7 @@ def run(tier, work):
         compared += 1
         want = P.shift_rows(C.parse_lines(b["out"]), at, by)
         got = C.parse_lines(res.get("out") or "") if not (res.hung or res.crashed) else [("!", "", 0, str(res.get("cls")))]
-        if want == got:
+        if same_output(kind, at, want, got):
             continue
         v.count("differences")
         key = context_key(jobs[base_i]["files"]["t.rb"], kind, at if at < 10 ** 9 else len(jobs[base_i]["files"]["t.rb"].split("\n")))
@@ -152,7 +171,7 @@ def run(tier, work):
         eb = C.confirm_alone(work, {"cfg": job["cfg"], "files": job["files"], "args": job["args"]}, runs=1)[0]
         want2 = P.shift_rows(C.parse_lines(bb.get("out") or ""), at, by)
         got2 = C.parse_lines(eb.get("out") or "")
-        if want2 == got2 and not eb.get("timeout"):
+        if same_output(kind, at, want2, got2) and not eb.get("timeout"):
             v.count("not_reproduced_blackbox")
             continue
         diff = [x for x in got2 if x not in want2][:3] + [("missing",) + x for x in want2 if x not in got2][:3]
